@@ -389,6 +389,7 @@ def build_value(world, dom, name):
         obj.partial = True        # an attribute the heap model does not describe is unsupported, not an AttributeError
         if getattr(dom, 'evaluating', None) is not None:
             obj.fields['cell_map'] = HM.SCellMap(classes=True)
+            obj.fields['dep_graph'] = HM.SGraph(classes=True)
             obj.fields['eval'] = Builtin('eval', HM.make_heap_eval(list(dom.evaluating), tuple(getattr(dom, 'eval_raises', ()))))
         if building:
             HM.declare_heap_set('graph_todos')
